@@ -1,0 +1,93 @@
+//go:build verif
+
+// Contracts for the verifier in /verif (comment-only file; contributes no declarations).
+package stream
+
+// Closed world: graph nodes, edges and directions are the ones package streams/flow builds.
+//@ devirtall FlowGraphNodeI => *FlowGraphNode
+//@ devirtall ConnectionEdgeI => *ConnectionEdge
+//@ devirtall FlowDirectionI => *FlowDirection
+//@ pure FlowI.GetName
+//@ pure FlowI.GetResponseDirection
+//@ pure FlowI.GetResourceManagement
+//@ pure APIStreamI.GetActionsType
+//@ pure APIStreamI.GetType
+//@ pure ReqLunarAction.IsEarlyReturnType
+
+// Ghost execution trace: event i is one processor execution; xn[i] the node, xo[i] the output name the processor gave,
+// xp[i] the event of the activation that followed an edge to it (xpar: the parent handed to the next activation).
+//@ ghost var xn gmap[int]*streamflow.FlowGraphNode
+//@ ghost var xo gmap[int]string
+//@ ghost var xp gmap[int]int
+//@ ghost var xlen int
+//@ ghost var xpar int
+//@ ghost var drops int
+
+//@ ghost func nd(n internaltypes.FlowGraphNodeI) *streamflow.FlowGraphNode = n.(*streamflow.FlowGraphNode)
+// follows(n, o, t): the configuration has a connection from n to t whose condition is o
+//@ ghost spec follows(n *streamflow.FlowGraphNode, o string, t *streamflow.FlowGraphNode) bool = exists(k, 0, len(n.edges), n.edges[k] != nil && n.edges[k].node == t && n.edges[k].condition == o)
+
+// Processors (trusted): Execute returns an arbitrary output or error; it changes only processor-private state, never the
+// flow graph, the directions, the action lists or the trace.
+//@ iface ProcessorI.Execute
+//@   modifies now
+// The optional measurement wrapper (trusted) calls the closure it is given exactly once and returns its results.
+//@ field Stream.measureProcExecutionTime
+//@   modifies now
+// reflect-based nil test (trusted): true for a nil interface and for an interface holding a nil pointer
+//@ extern utils.IsInterfaceNil
+//@   modifies nothing
+//@   ensures result <==> ifacenil(i)
+//@ iface ResourceManagementI.OnRequestDrop
+//@   modifies drops
+//@   ensures drops == old(drops) + 1
+
+// The cases of one activation, in the statement's words. reqT/resT: request or response walk; scReq/scRes: the processor
+// answers the request itself (short circuit); early: early response on a request walk (hand-over to the response path).
+//@ ghost func reqT(a publictypes.APIStreamI) bool = a.GetActionsType() == publictypes.StreamTypeRequest
+//@ ghost func resT(a publictypes.APIStreamI) bool = a.GetActionsType() == publictypes.StreamTypeResponse
+//@ ghost func scReq(a publictypes.APIStreamI, io streamtypes.ProcessorIO) bool = reqT(a) && !ifacenil(io.ReqAction) && io.ShortCircuit != nil
+//@ ghost func scRes(a publictypes.APIStreamI, io streamtypes.ProcessorIO) bool = resT(a) && io.ShortCircuit != nil
+//@ ghost func early(a publictypes.APIStreamI, io streamtypes.ProcessorIO) bool = (reqT(a) || resT(a)) && !scReq(a, io) && !scRes(a, io) && io.Type == publictypes.StreamTypeResponse && a.GetType() == publictypes.StreamTypeRequest
+//@ ghost func walks(a publictypes.APIStreamI, io streamtypes.ProcessorIO) bool = (reqT(a) || resT(a)) && !scReq(a, io) && !scRes(a, io) && !early(a, io)
+//@ ghost func matchE(n *streamflow.FlowGraphNode, k int, o string) bool = n.edges[k].node != nil && n.edges[k].condition == o
+
+//@ func (*Stream).ExecuteFlow
+//@   prop C04
+//@   results sc, err
+//@   ghostlocal me int
+//@   ghostlocal cidx gmap[int]int
+//@   requires s != nil && actions != nil && actions.Request != nil && actions.Response != nil && xlen >= 0
+//@   requires typeis(node, *streamflow.FlowGraphNode) && nd(node) != nil && allocated(nd(node))
+//@   requires typeis(flow.GetResponseDirection(), *streamflow.FlowDirection) && flow.GetResponseDirection().(*streamflow.FlowDirection) != nil
+//@   requires forall(n, *streamflow.FlowGraphNode, allocated(n) ==> forall(k, 0, len(n.edges), n.edges[k] != nil))
+//@   allocates ProcessorIO
+//@   modifies now, xn, xo, xp, xlen, xpar, drops, actions.Request.Actions, actions.Response.Actions
+//@   on entry do me = xlen
+//@   on call Execute 1 before do xn[xlen] = nd(node); xp[xlen] = xpar; xlen = xlen + 1
+//@   on call measureProcExecutionTime 1 before do xn[xlen] = nd(node); xp[xlen] = xpar; xlen = xlen + 1
+//@   on call GetActionsType 1 before do xo[me] = procIO.Name
+//@   on call ExecuteFlow 1 before do xpar = me; cidx[idx1] = xlen
+//@   loop 1 modifies now, xn, xo, xp, xlen, xpar, drops, actions.Request.Actions, actions.Response.Actions, cidx
+//@   loop 1 invariant[own-event-idx] me == old(xlen) && me < xlen
+//@   loop 1 invariant[own-event-node] xn[me] == nd(node)
+//@   loop 1 invariant[own-event-out] xo[me] == procIO.Name
+//@   loop 1 invariant[own-event-parent] xp[me] == old(xpar)
+//@   loop 1 invariant[drops] drops >= old(drops) && (reqT(apiStream) && !ifacenil(procIO.ReqAction) && procIO.ReqAction.IsEarlyReturnType() ==> drops > old(drops))
+//@   loop 1 invariant[prefix-kept] forall(i, 0, me, xn[i] == old(xn)[i] && xo[i] == old(xo)[i] && xp[i] == old(xp)[i])
+//@   loop 1 invariant[on-path] forall(i, me + 1, xlen, me <= xp[i] && xp[i] < i && follows(xn[xp[i]], xo[xp[i]], xn[i]))
+//@   loop 1 invariant[followed] forall(k, 0, idx1, nd(node).edges[k].node != nil && nd(node).edges[k].condition == procIO.Name ==> me < cidx[k] && cidx[k] < xlen && xp[cidx[k]] == me && xn[cidx[k]] == nd(node).edges[k].node)
+//@   loop 1 invariant[in-order] forall(k, 0, idx1, forall(k2, 0, k, nd(node).edges[k].node != nil && nd(node).edges[k].condition == procIO.Name && nd(node).edges[k2].node != nil && nd(node).edges[k2].condition == procIO.Name ==> cidx[k2] < cidx[k]))
+//@   ensures[once-first] xlen > old(xlen) && xn[old(xlen)] == nd(node) && xp[old(xlen)] == old(xpar)
+//@   ensures[prefix-kept] forall(i, 0, old(xlen), xn[i] == old(xn)[i] && xo[i] == old(xo)[i] && xp[i] == old(xp)[i])
+//@   ensures[own-output] err == nil ==> xo[old(xlen)] == procIO.Name
+//@   ensures[leaf] err == nil && !walks(apiStream, procIO) ==> xlen == old(xlen) + 1
+//@   ensures[followed] err == nil && walks(apiStream, procIO) ==> forall(k, 0, len(nd(node).edges), matchE(nd(node), k, procIO.Name) ==> old(xlen) < cidx[k] && cidx[k] < xlen && xp[cidx[k]] == old(xlen) && xn[cidx[k]] == nd(node).edges[k].node)
+//@   ensures[in-order] err == nil && walks(apiStream, procIO) ==> forall(k, 0, len(nd(node).edges), forall(k2, 0, k, matchE(nd(node), k, procIO.Name) && matchE(nd(node), k2, procIO.Name) ==> cidx[k2] < cidx[k]))
+//@   ensures[early-response] err == nil && early(apiStream, procIO) ==> in(nd(node).processorKey, flow.GetResponseDirection().(*streamflow.FlowDirection).nodes) && sc == box(flow.GetResponseDirection().(*streamflow.FlowDirection).nodes[nd(node).processorKey])
+//@   ensures[no-hand-over] err == nil && !early(apiStream, procIO) && !walks(apiStream, procIO) ==> sc == nil
+//@   ensures[short-circuit-action] err == nil && scReq(apiStream, procIO) ==> len(actions.Request.Actions) == old(len(actions.Request.Actions)) + 1 && actions.Request.Actions[old(len(actions.Request.Actions))] == procIO.ShortCircuit.ReqAction
+//@   ensures[short-circuit-action-res] err == nil && scRes(apiStream, procIO) ==> len(actions.Response.Actions) == old(len(actions.Response.Actions)) + 1 && actions.Response.Actions[old(len(actions.Response.Actions))] == procIO.ShortCircuit.RespAction
+//@   ensures[drop-on-early] err == nil && reqT(apiStream) && !ifacenil(procIO.ReqAction) && procIO.ReqAction.IsEarlyReturnType() ==> drops > old(drops)
+//@   ensures[drops-monotone] drops >= old(drops)
+//@   ensures[on-path] forall(i, old(xlen) + 1, xlen, old(xlen) <= xp[i] && xp[i] < i && follows(xn[xp[i]], xo[xp[i]], xn[i]))
